@@ -70,22 +70,6 @@ func c07BigBody(n int, salt byte) []byte {
 	return b
 }
 
-func c07ServerYAML(srv, path int64) string {
-	return fmt.Sprintf(`
-kind: HTTPServer
-name: front
-port: 10080
-keepAlive: true
-https: false
-clientMaxBodySize: %d
-rules:
-- paths:
-  - pathPrefix: /
-    backend: p
-    clientMaxBodySize: %d
-`, srv, path)
-}
-
 func c07PipelineYAML(addr string, pool, proxy int64) string {
 	return fmt.Sprintf(`
 name: p
